@@ -36,6 +36,11 @@ type gluelayerOciCase struct {
 	Tarball   bool    `json:"tarball,omitempty"`
 	BuildDate string  `json:"build_date,omitempty"`
 	Base      bool    `json:"base,omitempty"` // contents.baseimage (oci_e2e_base.go)
+	// creation-time dimension: what the environment says about SOURCE_DATE_EPOCH ("" = not exported, "set", "blank",
+	// "malformed") with the exported text, and how the packages' build dates were placed against the declared time
+	SDEState string `json:"sde_state,omitempty"`
+	SDEValue string `json:"sde_value,omitempty"`
+	PkgDates string `json:"pkg_dates,omitempty"`
 }
 
 type gluelayerOciSuite struct{}
@@ -168,7 +173,231 @@ func (gluelayerOciSuite) Gen(r *Rng, i int, tier string) any {
 	if r.Chance(60) {
 		c.BuildDate = time.Unix(int64(1650000000+r.Intn(4)*86400*200), 0).UTC().Format(time.RFC3339)
 	}
+	gluelayerGenCreated(r, &c)
 	return c
+}
+
+const gluelayerDay = int64(86400)
+
+// gluelayerGenCreated: the creation-time dimension.  SOURCE_DATE_EPOCH not exported / a number before, at, after the
+// --build-date option / blank / malformed; the build dates of the repository's packages (PKGINFO builddate and the
+// index's t: field) all before / the newest equal to / some after the declared time.
+func gluelayerGenCreated(r *Rng, c *gluelayerOciCase) {
+	opt := int64(0)
+	if c.BuildDate != "" {
+		if t, err := time.Parse(time.RFC3339, c.BuildDate); err == nil {
+			opt = t.Unix()
+		}
+	}
+	declared, have := opt, c.BuildDate != ""
+	switch k := r.Intn(20); {
+	case k < 7:
+	case k < 17:
+		c.SDEState = "set"
+		v := Pick(r, []int64{1700000000, 1600086400, 0})
+		if opt != 0 && r.Chance(70) {
+			v = opt + Pick(r, []int64{-100 * gluelayerDay, -1, 0, 1, 100 * gluelayerDay})
+		}
+		c.SDEValue = fmt.Sprint(v)
+		declared, have = v, true
+	case k < 19:
+		c.SDEState = "blank"
+		c.SDEValue = Pick(r, []string{"", " ", "\t "})
+	default:
+		c.SDEState = "malformed"
+		c.SDEValue = Pick(r, []string{"17e8", "2023-11-14T22:13:20Z", "1700000000 ", "0x6553f100", "now"})
+	}
+	if !have || len(c.Img.Pkgs) == 0 {
+		c.PkgDates = "as generated"
+		return
+	}
+	newest := c.Img.Pkgs[0].BuildTime
+	for _, p := range c.Img.Pkgs {
+		if p.BuildTime > newest {
+			newest = p.BuildTime
+		}
+	}
+	var shift int64
+	switch r.Intn(4) {
+	case 0:
+		c.PkgDates = "as generated"
+		return
+	case 1:
+		c.PkgDates = "all before the declared time"
+		shift = declared - gluelayerDay*int64(1+r.Intn(50)) - newest
+	case 2:
+		c.PkgDates = "the newest equal to the declared time"
+		shift = declared - newest
+	default:
+		c.PkgDates = "the newest after the declared time"
+		shift = declared + Pick(r, []int64{1, gluelayerDay, 231 * gluelayerDay}) - newest
+	}
+	for i := range c.Img.Pkgs {
+		if c.Img.Pkgs[i].BuildTime += shift; c.Img.Pkgs[i].BuildTime < 0 {
+			c.Img.Pkgs[i].BuildTime = 0
+		}
+	}
+}
+
+// gluelayerExport puts the case's SOURCE_DATE_EPOCH into the process environment (cases run one at a time) and
+// returns the function that restores what was there.
+func gluelayerExport(state, value string) func() {
+	old, had := os.LookupEnv("SOURCE_DATE_EPOCH")
+	if state == "" {
+		os.Unsetenv("SOURCE_DATE_EPOCH")
+	} else {
+		os.Setenv("SOURCE_DATE_EPOCH", value)
+	}
+	return func() {
+		if had {
+			os.Setenv("SOURCE_DATE_EPOCH", old)
+		} else {
+			os.Unsetenv("SOURCE_DATE_EPOCH")
+		}
+	}
+}
+
+const gluelayerCreatedKey = "org.opencontainers.image.created"
+
+// gluelayerEpoch: an emitted time as whole seconds; ok only for the canonical RFC 3339 UTC spelling of whole seconds.
+func gluelayerEpoch(s string) (int64, bool) {
+	t, err := time.Parse(time.RFC3339, s)
+	if err != nil {
+		return 0, false
+	}
+	return t.Unix(), t.UTC().Format(time.RFC3339) == s || t.UTC().Format(time.RFC3339Nano) == s
+}
+
+// gluelayerInstalledDates: the t: fields of the image's own installed database.
+func gluelayerInstalledDates(fs map[string]*gluelayerEntry) []int64 {
+	var out []int64
+	db, _ := gluelayerFile(fs, "lib/apk/db/installed")
+	for _, l := range strings.Split(db, "\n") {
+		if strings.HasPrefix(l, "t:") {
+			var n int64
+			fmt.Sscan(l[2:], &n)
+			out = append(out, n)
+		}
+	}
+	return out
+}
+
+func gluelayerInts(l []int64) string {
+	s := make([]string, len(l))
+	for i, n := range l {
+		s[i] = fmt.Sprint(n)
+	}
+	return strings.Join(s, ",")
+}
+
+// gluelayerCreatedStep: EVERY creation-time field of every emitted artifact (config created, each history entry, the
+// created label of the config, the created annotation of each manifest, the created annotation of the index) against
+// the declared inputs, judged by the Lean driver (oci.created-e2e: Spec.createdVerdict).  failed = the build failed.
+func gluelayerCreatedStep(c gluelayerOciCase, failed bool, imgs []*gluelayerImage, idx []byte, desc string) []Step {
+	opt := int64(0)
+	if c.BuildDate != "" {
+		if t, err := time.Parse(time.RFC3339, c.BuildDate); err == nil {
+			opt = t.Unix()
+		}
+	}
+	state := c.SDEState
+	if state == "" {
+		state = "unset"
+	}
+	sde := strings.TrimSpace(c.SDEValue)
+	if state != "set" {
+		sde = "0"
+	}
+	tags := []string{"created", "created:sde:" + state, "created:pkgs:" + c.PkgDates}
+	if c.BuildDate != "" {
+		tags = append(tags, "created:build-date:set")
+	} else {
+		tags = append(tags, "created:build-date:default")
+	}
+	head := "oci.created-e2e\t" + state + "\t" + sde + "\t" + fmt.Sprint(opt) + "\t"
+	what := fmt.Sprintf("%s: creation times, SOURCE_DATE_EPOCH %s %q, --build-date %q (%d), package build dates %s", desc, state, c.SDEValue, c.BuildDate, opt, c.PkgDates)
+	if failed {
+		return []Step{{Line: head + "err\t-", Go: "err", Mode: "verdict", Desc: what + " => the build fails", Tags: append(tags, "created:build-fails")}}
+	}
+	var probs, line, goParts, seen []string
+	for _, a := range c.Img.Archs {
+		im := gluelayerImageOf(imgs, a)
+		if im == nil || im.RawConfig == nil {
+			continue
+		}
+		fs, err := gluelayerFlatten(im)
+		if err != nil {
+			probs = append(probs, "image "+im.Plat+" cannot be extracted: "+err.Error())
+			continue
+		}
+		pk := gluelayerInstalledDates(fs)
+		var times []int64
+		add := func(field, v string, present bool) {
+			if !present {
+				probs = append(probs, im.Plat+": no "+field)
+				return
+			}
+			n, ok := gluelayerEpoch(v)
+			if !ok {
+				probs = append(probs, fmt.Sprintf("%s: %s %q is not a whole-second RFC 3339 UTC time", im.Plat, field, v))
+				return
+			}
+			times = append(times, n)
+			seen = append(seen, fmt.Sprintf("%s %s=%s", im.Plat, field, v))
+		}
+		add("config created", im.Cfg.Created, im.Cfg.Created != "")
+		for i, h := range im.Cfg.History {
+			var he struct {
+				Created string `json:"created"`
+			}
+			_ = json.Unmarshal(h, &he)
+			add(fmt.Sprintf("history[%d].created", i), he.Created, he.Created != "")
+		}
+		lv, ok := im.Cfg.Config.Labels[gluelayerCreatedKey]
+		add("created label", lv, ok)
+		av, ok := im.Man.Annotations[gluelayerCreatedKey]
+		add("manifest created annotation", av, ok)
+		line = append(line, gluelayerInts(pk)+":"+gluelayerInts(times))
+		d := append([]int64(nil), times...)
+		sort.Slice(d, func(i, j int) bool { return d[i] < d[j] })
+		var dd []int64
+		for i, n := range d {
+			if i == 0 || n != d[i-1] {
+				dd = append(dd, n)
+			}
+		}
+		goParts = append(goParts, gluelayerInts(dd))
+		for _, p := range pk {
+			if state == "set" || c.BuildDate != "" {
+				ref := opt
+				if state == "set" {
+					fmt.Sscan(sde, &ref)
+				}
+				if p > ref {
+					tags = append(tags, "created:installed-package-newer-than-declared")
+					break
+				}
+			}
+		}
+	}
+	idxT := "-"
+	var ix gluelayerIndex
+	if err := json.Unmarshal(idx, &ix); err == nil {
+		if v, ok := ix.Annotations[gluelayerCreatedKey]; ok {
+			if n, ok := gluelayerEpoch(v); ok {
+				idxT = fmt.Sprint(n)
+				seen = append(seen, "index annotation="+v)
+			} else {
+				probs = append(probs, fmt.Sprintf("index: created annotation %q is not a whole-second RFC 3339 UTC time", v))
+			}
+		}
+	}
+	steps := []Step{{Line: head + strings.Join(line, ";") + "\t" + idxT, Go: strings.Join(goParts, ";") + "|" + idxT, Mode: "verdict",
+		Desc: what + " => " + strings.Join(seen, ", "), Tags: tags}}
+	if len(probs) > 0 {
+		steps = append(steps, Step{Line: "oci.e2e-wf\tcreated-fields", Mode: "oracle-go", NoImpl: true, GoSpec: verdict(probs), Desc: what, Tags: []string{"created:malformed-field"}})
+	}
+	return steps
 }
 
 // gluelayerReadTar: name -> bytes of every entry of an (uncompressed) tar, read to its end.
@@ -231,14 +460,20 @@ func gluelayerPairs(m map[string]string) []ociKV {
 
 // gluelayerCreated: the creation time the build must stamp: the build date, or a later build time of an installed
 // package (read from the image's own installed database).
-func gluelayerCreated(buildDate string, fs map[string]*gluelayerEntry) string {
+func gluelayerCreated(c gluelayerOciCase, fs map[string]*gluelayerEntry) string {
+	buildDate := c.BuildDate
 	t := time.Unix(0, 0).UTC()
 	if buildDate != "" {
 		if p, err := time.Parse(time.RFC3339, buildDate); err == nil {
 			t = p.UTC()
 		}
 	}
-	if _, ok := os.LookupEnv("SOURCE_DATE_EPOCH"); ok {
+	switch c.SDEState {
+	case "set":
+		var n int64
+		fmt.Sscan(strings.TrimSpace(c.SDEValue), &n)
+		return time.Unix(n, 0).UTC().Format(time.RFC3339)
+	case "blank":
 		return t.Format(time.RFC3339)
 	}
 	db, _ := gluelayerFile(fs, "lib/apk/db/installed")
@@ -255,7 +490,8 @@ func gluelayerCreated(buildDate string, fs map[string]*gluelayerEntry) string {
 }
 
 // gluelayerMirrorStep: one image config against the configuration, judged by the Lean driver (oci.config-e2e).
-func gluelayerMirrorStep(ic types.ImageConfiguration, buildDate, arch string, im *gluelayerImage, desc string) Step {
+func gluelayerMirrorStep(c gluelayerOciCase, arch string, im *gluelayerImage, desc string) Step {
+	ic := c.Img.IC
 	fs, err := gluelayerFlatten(im)
 	if err != nil {
 		return Step{Line: "oci.e2e-wf", Mode: "oracle-go", NoImpl: true, GoSpec: "fail:image " + im.Plat + " cannot be extracted: " + err.Error(), Desc: desc}
@@ -270,7 +506,7 @@ func gluelayerMirrorStep(ic types.ImageConfiguration, buildDate, arch string, im
 	if ic.Entrypoint.Type == "service-bundle" {
 		resolvedEp = "/bin/s6-svscan /sv" // what the demand says; the driver resolves on its own, this is only the shlex observation
 	}
-	created := gluelayerCreated(buildDate, fs)
+	created := gluelayerCreated(c, fs)
 	icFields := []string{hx(ic.Entrypoint.Type), ociPairs(pw),
 		hx(ic.Entrypoint.ShellFragment), hx(epCmd), hx(ic.Cmd), hx(ic.WorkDir), hx(ic.StopSignal), hx(ic.VCSUrl), hx(ic.Accounts.RunAs),
 		ociList(ic.Volumes), ociPairs(gluelayerPairs(ic.Environment)), ociPairs(gluelayerPairs(ic.Annotations)),
@@ -326,6 +562,7 @@ func (gluelayerOciSuite) Run(raw json.RawMessage) []Step {
 	if err := json.Unmarshal(raw, &c); err != nil {
 		panic(err)
 	}
+	defer gluelayerExport(c.SDEState, c.SDEValue)()
 	if c.Base {
 		return gluelayerRunBase(c)
 	}
@@ -335,8 +572,8 @@ func (gluelayerOciSuite) Run(raw json.RawMessage) []Step {
 		pkgs = append(pkgs, gluelayerBulkPkg())
 	}
 	repo := BuildSynthRepo(pkgs, img.Archs)
-	desc := fmt.Sprintf("apko build archs=%v world=%v layering=%v tarball=%v build-date=%q rebuild-into-used-tempdir=%v [%s]",
-		img.Archs, img.IC.Contents.Packages, img.IC.Layering != nil, c.Tarball, c.BuildDate, c.Rebuild, c.How)
+	desc := fmt.Sprintf("apko build archs=%v world=%v layering=%v tarball=%v build-date=%q SOURCE_DATE_EPOCH=%s%q rebuild-into-used-tempdir=%v [%s]",
+		img.Archs, img.IC.Contents.Packages, img.IC.Layering != nil, c.Tarball, c.BuildDate, c.SDEState, c.SDEValue, c.Rebuild, c.How)
 	opts := E2EOpts{Archs: img.Archs, Tarball: c.Tarball, BuildDate: c.BuildDate}
 	tags := []string{fmt.Sprintf("archs:%d", len(img.Archs))}
 	if contains(img.Archs, "armv7") && contains(img.Archs, "armhf") {
@@ -381,12 +618,18 @@ func (gluelayerOciSuite) Run(raw json.RawMessage) []Step {
 		}
 		st := Step{Line: "oci.e2e-wf\trebuild", Mode: "oracle-go", NoImpl: true, GoSpec: verdict, Desc: desc + ": rebuild vs fresh build", Tags: []string{"rebuild:" + strings.SplitN(verdict, ":", 2)[0]}}
 		if out.Err != nil {
+			if c.SDEState == "malformed" {
+				return append([]Step{st}, gluelayerCreatedStep(c, true, nil, nil, desc)...)
+			}
 			return []Step{st}
 		}
 		steps := gluelayerOciJudge(c, out, desc, tags)
 		return append([]Step{st}, steps...)
 	}
 	out = e2eBuild(img.IC, repo, opts)
+	if out.Err != nil && c.SDEState == "malformed" {
+		return gluelayerCreatedStep(c, true, nil, nil, desc+" => build failed: "+firstLine(out.Err.Error()))
+	}
 	if out.Err != nil {
 		return []Step{{Line: "oci.e2e-wf\tbuild-error", Mode: "oracle-go", NoImpl: true, GoSpec: "pass", Trivial: true,
 			Desc: desc + " => build failed: " + firstLine(out.Err.Error()), Tags: append(tags, "build:error")}}
@@ -431,7 +674,10 @@ func gluelayerOciJudge(c gluelayerOciCase, out E2EOut, desc string, tags []strin
 		if im == nil || im.RawConfig == nil {
 			continue
 		}
-		steps = append(steps, gluelayerMirrorStep(img.IC, c.BuildDate, a, im, desc))
+		steps = append(steps, gluelayerMirrorStep(c, a, im, desc))
+	}
+	if idx != nil {
+		steps = append(steps, gluelayerCreatedStep(c, false, imgs, idx, desc)...)
 	}
 	return steps
 }
